@@ -297,6 +297,11 @@ func (st *convState) learn(fr feedRes) {
 // followUp6: a client that holds prefixes comes back - REQUEST / RENEW / REBIND / RELEASE / DECLINE / SOLICIT
 // naming what it holds, in every layout a client may choose
 func followUp6(r *rand.Rand, ownDUID dhcpv6.DUID, st *convState) ([]byte, string, bool) {
+	return followUp6As(r, ownDUID, st, "", 0, "")
+}
+
+// followUp6As: the same, for a given client / message type / layout ("" and 0: drawn at random)
+func followUp6As(r *rand.Rand, ownDUID dhcpv6.DUID, st *convState, who string, forceTyp dhcpv6.MessageType, forceLayout string) ([]byte, string, bool) {
 	var macs []string
 	for k, v := range st.held6 {
 		if len(v) > 0 {
@@ -308,9 +313,18 @@ func followUp6(r *rand.Rand, ownDUID dhcpv6.DUID, st *convState) ([]byte, string
 	}
 	sortStrings(macs)
 	k := macs[r.Intn(len(macs))]
+	if who != "" {
+		if len(st.held6[who]) == 0 {
+			return nil, "", false
+		}
+		k = who
+	}
 	held := st.held6[k]
 	mac, _ := net.ParseMAC(k)
 	typ := []dhcpv6.MessageType{3, 5, 6, 8, 9, 1, 8, 5}[r.Intn(8)]
+	if forceTyp != 0 {
+		typ = forceTyp
+	}
 	m := &dhcpv6.Message{MessageType: typ}
 	r.Read(m.TransactionID[:])
 	m.AddOption(dhcpv6.OptClientID(&dhcpv6.DUIDLL{HWType: 1, LinkLayerAddr: mac}))
@@ -321,6 +335,9 @@ func followUp6(r *rand.Rand, ownDUID dhcpv6.DUID, st *convState) ([]byte, string
 		return &dhcpv6.OptIAPrefix{PreferredLifetime: 600 * time.Second, ValidLifetime: 900 * time.Second, Prefix: n}
 	}
 	layout := []string{"one-each", "all-in-one", "first", "last", "reversed", "plus-new", "twice"}[r.Intn(7)]
+	if forceLayout != "" {
+		layout = forceLayout
+	}
 	iaid := byte(0)
 	addPD := func(ps ...*net.IPNet) {
 		pd := &dhcpv6.OptIAPD{IaId: [4]byte{2, 0, 0, iaid}}
@@ -684,7 +701,7 @@ func runServerOne(t *Trace, c4, c6 []plugConf, seed int64, ndg int) error {
 		for _, code := range []uint16{1, 2, 3, 6, 8, 14, 16, 25, 26, 39, 79} {
 			for n := 0; n <= 6 && !dead; n++ {
 				for _, mt := range []dhcpv6.MessageType{dhcpv6.MessageTypeSolicit, dhcpv6.MessageTypeRequest, dhcpv6.MessageTypeRenew} {
-					m, _ := dhcpv6.NewSolicit(srvMacs[2+(n+int(code))%5])
+					m, _ := dhcpv6.NewSolicit(srvMacs[6]) // one client: the sweep must not use up a small prefix pool
 					m.MessageType = mt
 					if mt != dhcpv6.MessageTypeSolicit {
 						m.AddOption(dhcpv6.OptServerID(own))
@@ -700,6 +717,34 @@ func runServerOne(t *Trace, c4, c6 []plugConf, seed int64, ndg int) error {
 					if fr.res == "wedged" || fr.res == "slow" {
 						dead = true
 					}
+				}
+			}
+		}
+	}
+	// systematic as well: one client that holds two prefixes comes back with every message type in every layout
+	if c6 != nil && !dead {
+		who := srvMacs[5]
+		emit6 := func(b []byte, kind string) {
+			fr := feed(l4, l6, 6, b, 7, &net.UDPAddr{IP: net.ParseIP("fe80::99"), Port: 546})
+			conv.learn(fr)
+			t.Emit(Ev{"ev": "dg", "proto": 6, "kind": kind, "mut": "none", "len": len(b), "res": fr.res, "n": fr.n, "msg": fr.msg})
+			if fr.res == "wedged" || fr.res == "slow" {
+				dead = true
+			}
+		}
+		m, _ := dhcpv6.NewSolicit(who)
+		m.AddOption(&dhcpv6.OptIAPD{IaId: [4]byte{2, 0, 0, 0}})
+		emit6(m.ToBytes(), "t1-conv-first")
+		if b, k, ok := followUp6As(r, own, conv, who.String(), 3, "plus-new"); ok && !dead {
+			emit6(b, k)
+		}
+		for _, typ := range []dhcpv6.MessageType{3, 5, 6, 8, 9, 1} {
+			for _, layout := range []string{"one-each", "all-in-one", "first", "last", "reversed", "plus-new", "twice"} {
+				if dead {
+					break
+				}
+				if b, k, ok := followUp6As(r, own, conv, who.String(), typ, layout); ok {
+					emit6(b, k)
 				}
 			}
 		}
